@@ -376,7 +376,7 @@ def variety_shapes(tier, pdims=(1, 2, 3), dims=(4, 5), types=True):
                 kvs = [kv] + [A.affine_kv(k, 1.0, 2.0) for k in base[pd][0][0][1:]]
             for rat in (False, True):
                 out.append(A.shape_desc(kvs, base[pd][0][1], rat, 3, 'coded', 'coded', normalize_kv=norm, variety='knots'))
-    return out
+    return out + mixed_shapes(tier, pdims)
 
 
 def tiny_span_shapes(tier):
@@ -391,6 +391,29 @@ def tiny_span_shapes(tier):
         kv = [0.0] * (p + 1) + [0.3, 0.1 + 0.2] + [1.0] * (p + 1)
         out.append(A.shape_desc([kv, A.clamped_kv(1, [(0.5, 1)])], [p, 1], p == 2, 3, 'coded', 'coded', variety='tiny_span'))
         out.append(A.shape_desc([A.clamped_kv(2, []), kv], [2, p], p != 2, 3, 'coded', 'coded', variety='tiny_span'))
+    return out
+
+
+def mixed_shapes(tier, pdims=(1, 2, 3)):
+    """a few shapes that leave the small world in several respects at once (the slices above vary one respect at a time):
+    high degree / many control points together with unusual coordinates, weights, knot ranges kept as given and input types"""
+    out = []
+    u = A.uniform_kv
+    if 1 in pdims:
+        out.append(A.shape_desc([A.affine_kv(u(5, 9), -5.0, 4.0)], [5], True, 3, 'negfrac', 'extreme', normalize_kv=False,
+                                input_types='tuples', variety='mixed', tall=True))
+        out.append(A.shape_desc([A.clamped_kv(4, [])], [4], True, 4, 'large', 'equal5', variety='mixed', tall=True))
+        out.append(A.shape_desc([A.affine_kv(A.clamped_kv(3, [(0.25, 1), (0.5, 2), (0.75, 3)]), 100.0, 100.0)], [3], False, 2, 'tiny',
+                                normalize_kv=False, variety='mixed'))
+    if 2 in pdims:
+        out.append(A.shape_desc([A.affine_kv(u(4, 8), 100.0, 100.0), A.affine_kv(A.clamped_kv(1, [(0.5, 1)]), -1.0, 4.0)], [4, 1], True, 3,
+                                'tiny', 'smallw', normalize_kv=False, variety='mixed', tall=True))
+        out.append(A.shape_desc([A.clamped_kv(2, [(0.5, 2)]), u(3, 9)], [2, 3], True, 3, 'coincident', 'extreme', input_types='tuples',
+                                variety='mixed', tall=True))
+    if 3 in pdims:
+        out.append(A.shape_desc([A.affine_kv(A.clamped_kv(1, []), 1.0, 2.0), A.affine_kv(A.clamped_kv(2, [(0.5, 1)]), 1.0, 2.0),
+                                 A.affine_kv(A.clamped_kv(1, [(0.25, 1)]), 1.0, 2.0)], [1, 2, 1], True, 3, 'negfrac', 'extreme',
+                                normalize_kv=False, input_types='ints', variety='mixed'))
     return out
 
 
@@ -430,6 +453,14 @@ def nonnormalised_shapes(tier, pdims=(1, 2)):
                 kv = A.affine_kv(quick_reps(pv)[1], 1.0, 2.0)
                 for rat in (False, True):
                     out.append(A.shape_desc([ku, kv], [pu, pv], rat, 3, 'coded', 'coded', normalize_kv=False))
+    if 2 in pdims:
+        # cross-domain surfaces: the end of one direction's domain is an interior knot / split parameter of the other direction
+        for pu, pv in ((2, 1), (1, 2)):
+            for rat in (False, True):
+                out.append(A.shape_desc([A.clamped_kv(pu, [(0.5, 1)]), A.affine_kv(A.clamped_kv(pv, [(0.25, 1), (0.5, 1)]), 0.0, 2.0)], [pu, pv],
+                                        rat, 3, 'coded', 'coded', normalize_kv=False, crossdomain=True))
+                out.append(A.shape_desc([A.affine_kv(A.clamped_kv(pu, [(0.25, 1), (0.5, 1)]), 0.0, 2.0), A.clamped_kv(pv, [(0.5, 1)])], [pu, pv],
+                                        rat, 3, 'coded', 'coded', normalize_kv=False, crossdomain=True))
     return out
 
 
